@@ -46,6 +46,8 @@ REQUIRED = [
     "i6_leftover_checks",
     "i5_external_checks",
     "external_cancel_coinciding_with_deadline",
+    "recv_vs_cancel_cases",
+    "recv_read_then_cancel_orders",
 ]
 WATCHDOG = {"quick": 900, "thorough": 7200}
 EPS = 0.05
@@ -533,6 +535,34 @@ def run_shard(params: dict, ctx) -> None:
             ctx.violation(key, why, {"program": prog, "ext": ext, "outcome": res.get("outcome"), "trace_tail": [{k: v for k, v in e.items() if k not in ("enc",)} for e in res.get("trace", [])[-14:]]})
         if i == 0:
             ctx.sample({"program": prog, "external_cancel_at": ext, "outcome": res.get("outcome")})
+        if i % 30 == 0:
+            why = recv_vs_cancel(ctx, rng)
+            if why:
+                ctx.violation("I1s-receive-completed-despite-cancel", why, {"program": [], "ext": None, "recv_vs_cancel": True})
+
+
+def recv_vs_cancel(ctx, rng: random.Random) -> str | None:
+    """the asyncio socket adapter's receive as the blocking operation: the data and the cancellation request (scope.cancel() or
+    task.cancel()) land in the same loop iteration, in both orders (driver and order monitor shared with C10). A receive that
+    completes normally although the request was made while it was waiting has swallowed the cancellation."""
+    from checks import c10
+    from vlib import sockmon
+    from vlib.runner import Ctx as _Ctx
+
+    layer = rng.choice(["recv", "recv_into"])
+    kind = rng.choice(["task", "scope"])
+    nr = rng.randint(2, 4)
+    sizes = [rng.choice([1, 5, 20]) for _ in range(nr)]
+    slots = [rng.choice(["same-after-io", "same-before-io", "wakeup-iter", "iter-before"]) for _ in range(nr)]
+    c10.async_layer(_Ctx({}), layer, rng, sizes, slots, kind)
+    evs = list(sockmon.EVENTS)
+    ctx.count("recv_vs_cancel_cases")
+    if any(e[0] == "read-then-cancel" for e in evs):
+        ctx.count("recv_read_then_cancel_orders")
+    bad = [e for e in evs if e[0] == "completed-despite-cancel"]
+    if bad:
+        return f"{layer}() of the asyncio socket adapter completed normally although {'task.cancel()' if kind == 'task' else 'scope.cancel()'} had been called while it was waiting (slots {slots}): the operation swallowed the cancellation"
+    return None
 
 
 def _uses_shield(prog) -> bool:
@@ -552,6 +582,8 @@ def _fix_inf(x):
 
 
 def replay(witness: dict, ctx) -> None:
+    if witness.get("recv_vs_cancel"):
+        return  # depends on the shard's PRNG stream: re-run the check with the same seed
     prog = _fix_inf(witness["program"])
     res = execute(prog, witness["ext"])
     for key, why in check(prog, witness["ext"], res, None):
